@@ -17,7 +17,7 @@ from props import _dfpart_util as U
 PROP = "C41"
 READY = True
 DRIVER = "dm_dfpart"
-LEAN_MODULES = ["DaskModel.Props.C41"]
+LEAN_MODULES = ["DaskModel.Props.C41", "DaskModel.Props.C41xLocList"]
 CASE_TIMEOUT_S = 90
 LEVEL_TEXT = ("Lean 4: the statement's predicate Truthful (npartitions = len(divisions)-1, divisions sorted, every key of "
               "partition i in [d_i, d_i+1), last closed) and one theorem per construction path over executable "
@@ -457,6 +457,11 @@ def case_joint(ctx, inp):
 CASES = {"joint": case_joint, "pandas_divs": case_pandas_divs, "pipeline": case_pipeline, "locslice_divs": case_locslice_divs, "partitions_divs": case_partitions_divs,
          "concat_divs": case_concat_divs}
 
+# extension round: LocList / LocElement have a Lean model (Model/LocList.lean); sections loclist_route, loclist_api,
+# locelem in _c41x_loclist.py
+from props import _c41x_loclist as _ll   # noqa: E402
+CASES.update(_ll.CASES)
+
 
 def _rand_op(rng, first):
     t = rng.random()
@@ -581,3 +586,5 @@ def generate(ctx):
                      else ["set_index", None] + ([rng.randint(1, 6)] if rng.random() < 0.35 else []))
             ops = [first] + [o for o in ops[:1] if o[0] in ("loc_slice", "loc_list", "loc_elem", "partitions", "repartition_n", "assign")]
         yield "pipeline", {"src": src, "ops": ops}
+    # extension round (appended last so that the older streams keep their inputs)
+    yield from _ll.generate(ctx)
